@@ -32,6 +32,7 @@ import (
 	"sort"
 	"strings"
 	gosync "sync"
+	"time"
 
 	"github.com/ysugimoto/falco/v2/interpreter"
 	"github.com/ysugimoto/falco/v2/zzverif/vsched"
@@ -649,8 +650,11 @@ func init() {
 	engine.Register(engine.Spec[Case]{
 		ID:    "C18",
 		Level: "model_checking",
-		Rule: "each case is one scenario whose schedules are explored exhaustively within the preemption bound by the controlled scheduler on the real code: sim = every multiset of 2..3 (thorough: 4) request kinds {cacheable /c1, /c2, pass, error, restart, penalty-box} with distinct markers against one Interpreter, followed by 3 sequential probe requests; plugin = 2..4 plugins on one statement, each answering 0/1/2 diagnostics, failing or answering garbage. evaluations = scenarios; steps = executions (schedules) run",
+		Rule: "each case is one scenario whose schedules are explored exhaustively within the preemption bound by the controlled scheduler on the real code: sim = every multiset of 2..3 (thorough: 4) request kinds {cacheable /c1, /c2, pass, error, restart, penalty-box} with distinct markers against one Interpreter, followed by 3 sequential probe requests; plus /esi (a response whose body carries an ESI include, resolved during delivery) next to each other kind; plugin = 2..4 plugins on one statement, each answering 0/1/2 diagnostics, failing or answering garbage, one of them possibly not installed. evaluations = scenarios; steps = executions (schedules) run",
 		Gen:  gen18,
+		// a worker starts no further scenario after this long (the ones left are reported as a cap, exhaustive=false):
+		// on a loaded machine the thorough tier would otherwise run for hours
+		SoftDeadline: map[string]time.Duration{"quick": 15 * time.Minute, "thorough": 50 * time.Minute},
 		Key: func(c Case) string {
 			return c.Kind + "\x00" + strings.Join(c.Requests, ",") + "\x00" + strings.Join(c.Plugins, ",") + fmt.Sprint(c.Bound, c.Schedule)
 		},
